@@ -17,7 +17,6 @@ package main
 // every admitted PUBLISH / will are decided here, on the implementation alone.
 
 import (
-	"encoding/binary"
 	"fmt"
 	"strings"
 
@@ -335,6 +334,56 @@ func runC02(c *hx.Ctx) {
 		r.replay(c.Replay)
 		return
 	}
+	typeTable(c)
 	generate(r)
-	_ = binary.MaxVarintLen64
+}
+
+// typeTable: what the stream decoder does with the type nibble DetectPacket hands it, for all 16
+// nibbles (and beyond): Type.New / Valid / String return, New fails exactly for the reserved
+// nibbles 0 and 15, and nothing panics.  The same goes for packet.Fuzz on every 2-byte header.
+func typeTable(c *hx.Ctx) {
+	for n := 0; n < 256; n++ {
+		t := packet.Type(n)
+		res := ""
+		func() {
+			defer func() {
+				if x := recover(); x != nil {
+					res = fmt.Sprintf("panic: %v", x)
+				}
+			}()
+			p, err := t.New()
+			_ = t.String()
+			valid := t.Valid()
+			want := n >= 1 && n <= 14
+			switch {
+			case valid != want:
+				res = fmt.Sprintf("Valid() = %v", valid)
+			case want && (err != nil || p == nil || p.Type() != t):
+				res = fmt.Sprintf("New() = %v, %v", p, err)
+			case !want && err == nil:
+				res = "New() succeeded for a reserved type"
+			}
+		}()
+		if res != "" {
+			c.Emit("direct type_new type=%d FAIL %s", n, res)
+		}
+	}
+	for b0 := 0; b0 < 256; b0++ {
+		for _, b1 := range []byte{0, 2, 0x7f, 0x80} {
+			res := ""
+			func() {
+				defer func() {
+					if x := recover(); x != nil {
+						res = fmt.Sprintf("panic: %v", x)
+					}
+				}()
+				packet.Fuzz([]byte{byte(b0), b1, 0, 1})
+			}()
+			if res != "" {
+				c.Emit("direct type_new header=%02x%02x FAIL packet.Fuzz %s", b0, b1, res)
+			}
+		}
+	}
+	c.Emit("direct type_new ok all 256 type values and 1024 headers")
+	c.Stat("type_table_rows", 256)
 }
